@@ -48,9 +48,15 @@ func (t *fnTrans) instr(in ssa.Instruction) {
 		t.setVal(in, Val{T: t.term(t.val(in.X))})
 	case *ssa.MakeInterface:
 		xt := in.X.Type()
-		xv := t.term(t.val(in.X))
+		xval := t.val(in.X)
+		xv := t.term(xval)
 		r := t.defineReg(in, fmt.Sprintf("(mk_iface %s %s)", t.S.tagOf(xt), t.S.box(xv, xt)))
 		r.IfaceT, r.IfaceV = xt, xv
+		if xval.P != nil && !(xval.P.Ref != "" && xval.P.ArrOf == "" && len(xval.P.Sels) == 0) {
+			// interior address (&x.f) boxed into an interface: remember the location so that a callee's
+			// contract can still reach it through unbox()
+			r.IfaceP = xval.P
+		}
 		t.vals[in] = r
 	case *ssa.TypeAssert:
 		t.typeAssert(in)
